@@ -73,6 +73,11 @@ BIG_TEXTS = [
     "a = { " + "(" * 3000 + '"x"' + ")" * 3000 + " }",
     "a = { " + "!" * 6000 + '"x" }',
     "a = { " + "PUSH(" * 2500 + '"x"' + ")" * 2500 + " }",
+    # flat grammars with long or wide chains of rule references under a skip-until shape
+    "a = { (!r0 ~ ANY)* }\n" + "\n".join(f"r{i} = {{ r{i + 1} | r{i + 1} }}" for i in range(40)) + '\nr40 = { "x" }',
+    "a = { (!r0 ~ ANY)* }\n" + "\n".join(f"r{i} = {{ r{i + 1} }}" for i in range(6000)) + '\nr6000 = { "x" }',
+    "a = { r0 }\n" + "\n".join(f"r{i} = _{{ r{i + 1} }}" for i in range(6000)) + '\nr6000 = { "x" }',
+    "a = { r0+ }\n" + "\n".join(f"r{i} = _{{ r{i + 1} | r{i + 1} ~ \"y\" }}" for i in range(40)) + '\nr40 = { "x" }',
     'a = { "b"' + "+" * 22 + " }",  # K05: attributed, not reported
     "a = { b{2147483648} }",  # K05: not loaded
     'a = { "x"{' + "0" * 5000 + "} }",
